@@ -2,7 +2,8 @@
    Proofs/Ext*.v over the model Ms/ExtModel.v (extra_props.rs, script_size, descriptor weights,
    Plan accounting) and Ms/Sat.v (satisfier). *)
 From Verif Require Import CodecSpec.
-From Verif Require Import ExecTr TypeCheck ExtModel ExtProofs ExtLemmas ExtThresh ExtSatSide ExtBounds ExtTyped ExtDesc ExtSize ExtExec ExtOps ExtCodec.
+From Verif Require Import ExecTr TypeCheck ExtModel ExtProofs ExtLemmas ExtThresh ExtSatSide ExtBounds ExtTyped ExtDesc ExtSize ExtExec ExtOps ExtCodec ExtDepth.
+From Verif Require TheoremA.
 Local Open Scope N_scope.
 
 (* ---- the witness bounds (DESIGN 5/C09 wit_bounds) ----
@@ -210,6 +211,81 @@ Example C09_ops_nonvacuous :
   /\ ops_covered as_written cx_segwit (MOrB (MMulti 1 [1; 2]) (MAlt (MMulti 2 [3; 4; 5]))) = true
   /\ ast_cms (MOrB (MMulti 1 [1; 2]) (MAlt (MMulti 2 [3; 4; 5]))) = 5.
 Proof. vm_compute. auto. Qed.
+
+(* the class cannot be widened in the all-executions formulation: outside ops_covered there is a
+   well-typed script in ext_safe with an ACCEPTED execution (a non-canonical dissatisfaction of
+   j:and_b(multi, a:sha256): valid signature, wrong preimage) whose counted ops, 22, exceed the figure,
+   19. The script is malleable and the library's satisfier never produces this witness (it
+   dissatisfies j: with the empty vector, which skips the body): a limit of the formulation, not a
+   defect of the figure. What remains open for these scripts is the statement restricted to
+   satisfier-produced witnesses. *)
+Theorem C09_exec_ops_all_executions_refuted :
+  exists tym st' t' n,
+    type_of rf_ms = ROk tym /\ ext_safe as_written cx_segwit rf_ms = true
+    /\ no_multi_a rf_ms = true /\ multi_small rf_ms = true
+    /\ ops_covered as_written cx_segwit rf_ms = false
+    /\ exec_tr rf_env (enc rf_ke rf_ms) (mkSt rf_wit []) (mkTrace 0 5) = Ok (st', t')
+    /\ stk st' = [[1]]
+    /\ sat_op_count (ext_of_gen as_written cx_segwit rf_ms) = Some n
+    /\ n < count_ops (enc rf_ke rf_ms) + tr_cms t'.
+Proof. exact exec_ops_all_executions_refuted. Qed.
+Print Assumptions C09_exec_ops_all_executions_refuted.
+
+(* ---- execution stack depth (max_exec_stack_count) ----
+   For EVERY successful execution of the encoded script of a well-typed, well-formed fragment - any
+   environment, any initial stack and altstack, hence every satisfaction and dissatisfaction, all
+   fragments including thresh / multi / multi_a - the number of stack + altstack elements (tr_depth,
+   the running maximum kept by the instrumented semantics exec_tr, taken after every instruction
+   and after every IF/NOTIF pop) never rises more than [dgrow m] above its value at the start.
+   dgrow is the model's static growth bound (Ms/ExtModel.v). *)
+Theorem C09_exec_depth_growth :
+  forall e ke m tym st t st' t',
+    type_of m = ROk tym -> TheoremA.wf e ke m ->
+    exec_tr e (enc ke m) st t = Ok (st', t') ->
+    tr_depth t' <= N.max (tr_depth t) (depth_of st + dgrow m).
+Proof. exact exec_depth_growth. Qed.
+Print Assumptions C09_exec_depth_growth.
+
+(* ... which is within initial depth + max_exec_stack_count on the computable class depth_covered
+   (growth bound <= figure). PARTIAL: the class is evaluated per run on every generated script
+   (evidence: depth_class_coverage); outside it are scripts with a never-true left operand of or_d
+   (or_d(0,..): IFDUP is counted although it cannot duplicate), an or_d whose left operand always
+   consumes an element that the type system does not record (or_d(or_d(pk,pk),pk), or_i), and scripts
+   whose deeper branch has no satisfaction (the figure ignores it, the all-executions bound does not). *)
+Theorem C09_exec_depth_within_figure_partial :
+  forall fx c e ke m tym st t st' t',
+    type_of m = ROk tym -> TheoremA.wf e ke m -> depth_covered fx c m = true ->
+    exec_tr e (enc ke m) st t = Ok (st', t') ->
+    exists d, sat_data (ext_of_gen fx c m) = Some d
+              /\ tr_depth t' <= N.max (tr_depth t) (depth_of st + sd_estack d).
+Proof. exact exec_depth_within_figure. Qed.
+Print Assumptions C09_exec_depth_within_figure_partial.
+
+(* the form the stack-size limit check uses: from a witness of at most max_witness_stack_count
+   elements (C09_wit_bounds) the depth stays within max_witness_stack_count + max_exec_stack_count *)
+Theorem C09_exec_depth_limit_partial :
+  forall fx c e ke m tym items st' t',
+    type_of m = ROk tym -> TheoremA.wf e ke m -> depth_covered fx c m = true ->
+    exec_tr e (enc ke m) (mkSt items []) (mkTrace 0 (depth_of (mkSt items []))) = Ok (st', t') ->
+    exists d, sat_data (ext_of_gen fx c m) = Some d
+              /\ (N.of_nat (length items) <= sd_wcount d -> tr_depth t' <= sd_wcount d + sd_estack d).
+Proof. exact exec_depth_limit. Qed.
+Print Assumptions C09_exec_depth_limit_partial.
+
+(* not vacuous, and tight: the growth bound of multi equals the figure n + 2 and is attained *)
+Example C09_depth_nonvacuous :
+  depth_covered as_written cx_segwit (MAndV (MVerify (MCheck (MPkK 0))) (MMulti 2 [1; 2; 3])) = true
+  /\ depth_covered as_written cx_segwit
+       (MThresh 2 [MCheck (MPkK 0); MSwap (MCheck (MPkK 1)); MSwap (MDupIf (MVerify (MOlder 10)))]) = true
+  /\ depth_covered as_written cx_segwit (MOrD (MMulti 1 [1; 2]) (MAndV (MVerify (MCheck (MPkH 3))) (MOlder 5))) = true
+  /\ dgrow (MMulti 2 [1; 2; 3]) = 5
+  /\ match exec_tr rf_env (enc rf_ke (MMulti 1 [3; 4; 5])) (mkSt [[48]; []] []) (mkTrace 0 2),
+           sat_data (ext_of_gen as_written cx_segwit (MMulti 1 [3; 4; 5])) with
+     | Ok (st', t'), Some d =>
+       stk st' = [[1]] /\ tr_depth t' = 2 + sd_estack d /\ dgrow (MMulti 1 [3; 4; 5]) = sd_estack d
+     | _, _ => False
+     end.
+Proof. vm_compute. repeat split; reflexivity. Qed.
 
 (* ---- against the REAL encoded length (C04: script_size_ok) ----
    Miniscript::script_size and, for every fragment a context admits, ExtData::pk_cost are the length
